@@ -20,6 +20,7 @@ MIN_FUNCTIONS = 1
 FILES = {
     "C01": ["src/checks.rs", "src/checks/*.rs", "src/parser.rs", "src/parser/*.rs", "src/format.rs"],
     "C02": ["src/eval.rs", "src/values.rs", "src/env.rs", "src/types.rs", "src/garden_type.rs", "src/namespaces.rs"],
+    "C09": ["src/json_session.rs", "src/commands.rs"],
     "C28": ["src/lsp.rs", "src/completions.rs", "src/signature_help.rs", "src/hover.rs", "src/go_to_def.rs", "src/pos_to_id.rs",
             "src/highlight.rs", "src/rename.rs", "src/caret_finder.rs"],
 }
@@ -83,10 +84,12 @@ _COMMON_UNVERIFIED = [
     "guard slices keep only tests of the form `V.len() <op> N` / `V.is_empty()` / `match V.len() { .. }` on the indexed expression itself, `check_arity(.., N, &arg_positions, &arg_values)?` in eval.rs (contract proved in unit restore; that both vectors have the same length is its precondition) and windows(N) / chunks_exact(N) items; computed indexes (`v[i]`), slicing (`&s[a..b]`), arithmetic overflow and recursion depth are not covered by these slices",
     "that a vector's length changes only through the listed mutating methods, assignment, `&mut` borrows or rebinding of its root name (calls that receive `&mut` to an enclosing struct are not tracked)",
 ]
-UNVERIFIED = {"C02": [
+UNVERIFIED = {"C09": [
+    "guard slices (session files json_session.rs, commands.rs): the explicit panic sites that exist today (listed with reasons in units/guards/allowed_panic.json: `stack.0.last().unwrap()`, channel sends, the Content-Length framing of the input stream, serialisation) are assumed dead and are not obligations; any other panic site in these files is",
+] + _COMMON_UNVERIFIED, "C02": [
     "guard slices (evaluator files): the explicit panic sites that exist today (74, listed with reasons in units/guards/allowed_panic.json: value-stack pops, dispatch arms, mutex locks) are assumed dead and are not obligations; any other panic site in these files is; eval_built_in_call / eval_built_in_method_call are sliced per arm in unit indices instead",
 ] + _COMMON_UNVERIFIED, "C28": [
-    "guard slices (language-server files): only reftest_lsp's two `to_string_pretty(..).unwrap()` are assumed; any other panic site in lsp.rs, completions.rs, signature_help.rs, hover.rs, go_to_def.rs, pos_to_id.rs, highlight.rs, rename.rs, caret_finder.rs is an obligation",
+    "guard slices (language-server files): the explicit panic sites that exist today in lsp.rs (reftest_lsp's two `to_string_pretty(..).unwrap()`), go_to_def.rs and caret_finder.rs (test-harness helpers; listed with reasons in units/guards/allowed_panic.json) are assumed dead; any other panic site in lsp.rs, completions.rs, signature_help.rs, hover.rs, go_to_def.rs, pos_to_id.rs, highlight.rs, rename.rs, caret_finder.rs is an obligation",
 ] + _COMMON_UNVERIFIED, "C01": [
     "guard slices: %d explicit panic sites that exist today are assumed dead and are not obligations (forward-progress assertions of the parser, pops after a peek, scope stacks: listed with reasons in units/guards/unit.py ALLOWED_PANIC); every other unreachable!/panic!/todo!/unimplemented!/assert!/unwrap()/expect() in the front-end files is an obligation" % sum(n for (n, _w) in ALLOWED_PANIC.values()),
 ]+ _COMMON_UNVERIFIED}
@@ -133,6 +136,10 @@ WITNESSES.append({"match": r"guards\.g_(eval|values|env|types|garden_type|namesp
                   "input": "enum Shape { Circle(Int), Square }\nCircle()\n", "expect": {"stderr_contains": "Exception"}, "note": "enum constructor with no argument"})
 WITNESSES.append({"match": r"guards\.g_(eval|values|env|types|garden_type|namespaces)__", "kind": "run", "props": ["C02"], "timeout": 60,
                   "input": "enum Shape { Circle(Int), Square }\nCircle(1, 2)\n", "expect": {"stderr_contains": "Exception"}, "note": "enum constructor with two arguments"})
+WITNESSES.append({"match": r"guards\.g_(json_session|commands)__", "kind": "json-session", "props": ["C09"], "timeout": 120,
+                  "input": ["1 +", ":abort", ":skip", ":resume", ":replace 3", ":forget nosuch", ":forget_local nosuch", ":type 1 +", ":test nosuch", ":stack", ":locals", ":doc nosuch", ":source", ":help nosuch", ":nosuchcommand", "fun f() { g() }", "f()", ":stack", ":abort", ":search f", ":globals", ":version", "1"],
+                  "expect": {"py": "(lambda n: '' if n >= 23 else 'only %d responses for 23 requests: ' % n + (out + err)[-300:])(len([o for o in jsons(full_out) if isinstance(o, dict)]))"},
+                  "note": "every REPL command once, with and without a pending evaluation"})
 _SWEEP = common.lsp_sweep_witnesses(r"guards\.g_(lsp|completions|signature_help|hover|go_to_def|pos_to_id|highlight|rename|caret_finder)__", ["C28"])
 WITNESSES.append({"match": r"guards\.g_(lsp|completions|signature_help|hover|go_to_def|pos_to_id|highlight|rename|caret_finder)__", "kind": "lsp-sweep", "props": ["C28"],
                   "input": _SWEEP, "expect": {}, "timeout": 600, "note": "position sweeps over %d documents" % len(_SWEEP)})
